@@ -381,7 +381,7 @@ def run_impl(case):
     import random
     g = case["g"]
     rep = case.get("rep")
-    g0 = gr.perturb(g, random.Random(rep)) if rep is not None else None
+    g0 = unit.legal_neighbour(g, rep, guarded=case.get("obj") == "pag")
     if rep is not None:
         # CROSS-CALL: first the API on an unrelated graph (nodes the target lacks, two layers only) in the same process
         import pywhy_graphs.networkx as pywhy_nx
@@ -395,7 +395,7 @@ def run_impl(case):
         for v in g["V"]:
             lab(v)
         _queries(M, lab, inv, kw, case["qs"], case.get("argkind"))
-        gr.morph(M, g0, g, lab, lmap)
+        unit.morph(M, g0, g, lab, lmap)
     else:
         M, lab, inv, kw, lmap = build(g, case)
     if case.get("gattr"):
